@@ -1730,9 +1730,6 @@ func init() {
 			}
 			if o.Top == "value" && o.FmtCheck != "" {
 				key := ""
-				if strings.Contains(o.FmtCheck, "although the writer failed") && (strings.HasPrefix(o.FmtCheck, "csv:") || strings.HasPrefix(o.FmtCheck, "gedcom:") || strings.HasPrefix(o.FmtCheck, "html:")) {
-					key = "formatter-ignores-writer-error" // narrow: csv / gedcom / html return nil from a refused write
-				}
 				c.Oracle(key, "a formatter does not write the whole result, or hides that it could not be written",
 					map[string]interface{}{"query": j.Query, "documents": in["documents"], "result_type": o.Type}, o.FmtCheck, "the whole result written, or an error")
 			}
